@@ -52,6 +52,7 @@ func runC02Followup(c *Ctx, w *ATWorld) {
 				case "commit":
 					w.Eng.AddFault(memdb.Fault{Kind: "commit", Nth: 1})
 				}
+				stmts0 := w.Eng.OpenStmts()
 				var errs [2]error
 				var xid string
 				crash := safeCall(func() {
@@ -170,6 +171,9 @@ func runC02Followup(c *Ctx, w *ATWorld) {
 				}
 				if len(w.Eng.OpenTxns()) > 0 {
 					fail("transaction_left_open", fmt.Sprint(w.Eng.OpenTxns()))
+				}
+				if left := w.Eng.OpenStmts() - stmts0; left > 0 {
+					fail("prepared_statement_left_open", fmt.Sprintf("%d server-side prepared statement(s) prepared during the case and never closed", left))
 				}
 				c.Out.Oracle(cid, class == "", class, fmt.Sprintf("%s | fault=%s explicit=%v,%v errs=%v,%v branches=%d trace=%s final=%s", detail, fault, explicit1, explicit2, errs[0] != nil, errs[1] != nil, branches, strings.Join(toks, " "), final))
 				c.Out.Tag(cid, "nontrivial=1")
